@@ -1688,4 +1688,177 @@ theorem C04_string_example :
     lex LexRe_mindsdb.cfg [39, 97, 92, 92, 39, 39, 98, 39] = .ok [.tok "QUOTE_STRING" false [39, 97, 92, 92, 39, 39, 98, 39]] := by
   decide +kernel
 
+/-! ### double-quoted literals: quote, plain characters and backslash pairs, quote — ONE `DQUOTE_STRING` token
+
+What `json_to_sql` writes for a string inside a USING / PARAMETERS dictionary (`json.dumps(…, ensure_ascii=False)`): `"`, then the
+value with `"` as `\"`, `\` as `\\`, control characters as `\n` / `\t` / `\uXXXX`, everything else as it is, then `"`. -/
+
+def dquoteSet : CSet := [(34, 34)]
+def notDquoteSet : CSet := [(0, 33), (35, 1114111)]
+
+def dqShape (r : Re) : Option CSet :=
+  match r with
+  | .seq _ (.seq (.star true (.alt (.seq _ (.seq (.set any) _)) _)) _) =>
+    if Re.beq r (dqRe dquoteSet notDquoteSet bsSet any) then some any else none
+  | _ => none
+
+def classOKdq (c : Cfg) : Bool :=
+  match splitAt "DQUOTE_STRING" c.rules with
+  | none => false
+  | some (pre, sr, _) =>
+    pre.all (fun r => nonNull r.re && disjointR (first r.re) dquoteSet) && !sr.ignored &&
+    (match dqShape sr.re with | some any => any.mem 92 | none => false) && !c.ignore.mem 34
+
+theorem strOK_dq {ANY : CSet} (h : ANY.mem 92 = true) : StrOK dquoteSet notDquoteSet bsSet ANY 34 92 := by
+  refine ⟨by decide, by decide, by decide, by decide, h, ?_, (strOK_live h).nb⟩
+  intro c h1 h2
+  unfold notDquoteSet
+  by_cases hc : c ≤ 33
+  · have : Nat.ble c 33 = true := Nat.ble_eq_true_of_le hc
+    simp [CSet.mem, this]
+  · have a : Nat.blt c 35 = false := by
+      cases ha : Nat.blt c 35 with
+      | false => rfl
+      | true => rw [Nat.blt_eq] at ha; omega
+    have b : Nat.ble c 33 = false := by
+      cases hb : Nat.ble c 33 with
+      | false => rfl
+      | true => exact absurd (Nat.le_of_ble_eq_true hb) hc
+    have d : Nat.ble c 1114111 = true := Nat.ble_eq_true_of_le h2
+    simp [CSet.mem, a, b, d]
+
+def dqText (items : List DqItem) : List Nat := 34 :: (dqBody 92 items ++ [34])
+
+/-- the escaped character of a pair is anything `.` accepts (any code point but the newline, by `dotAny`) -/
+def DqItemsOK (ANY : CSet) (items : List DqItem) : Prop :=
+  (∀ it ∈ items, it.ok ANY 34 92) ∧ ∀ c ∈ dqBody 92 items, c ≤ 1114111
+
+theorem C04_dqstring_lexes (c : Cfg) (hc : classOKdq c = true) (items : List DqItem)
+    (hok : ∀ ANY, (∃ pre sr post, splitAt "DQUOTE_STRING" c.rules = some (pre, sr, post) ∧ dqShape sr.re = some ANY) →
+      DqItemsOK ANY items) :
+    lex c (dqText items) = .ok [.tok "DQUOTE_STRING" false (dqText items)] := by
+  unfold classOKdq at hc
+  cases hs : splitAt "DQUOTE_STRING" c.rules with
+  | none => rw [hs] at hc; cases hc
+  | some x =>
+    obtain ⟨pre, sr, post⟩ := x
+    rw [hs] at hc
+    simp only [Bool.and_eq_true, List.all_eq_true, Bool.not_eq_true'] at hc
+    obtain ⟨⟨⟨hpre, hign⟩, hsh⟩, hig⟩ := hc
+    obtain ⟨erules, ename⟩ := splitAt_spec hs
+    have h34 : inSet dquoteSet 34 := ⟨(34, 34), List.mem_cons_self, Nat.le_refl _, Nat.le_refl _⟩
+    have hnone : ∀ r ∈ pre, matchAt c.word r.re ⟨[], dqText items⟩ = none := fun r hr =>
+      matchAt_none_of_first (hpre r hr).1 (hpre r hr).2 (p := ⟨[], dqText items⟩) rfl h34
+    cases hss : dqShape sr.re with
+    | none => rw [hss] at hsh; cases hsh
+    | some ANY =>
+      rw [hss] at hsh
+      obtain ⟨hitems, hcp⟩ := hok ANY ⟨pre, sr, post, hs, hss⟩
+      have ere : sr.re = dqRe dquoteSet notDquoteSet bsSet ANY := by
+        unfold dqShape at hss
+        split at hss
+        · split at hss
+          · rename_i hb
+            simp only [Option.some.injEq] at hss
+            subst hss
+            exact Re.beq_eq hb
+          · cases hss
+        · cases hss
+      have hsm : matchAt c.word sr.re ⟨[], dqText items⟩ = some ⟨(dqText items).reverse, []⟩ := by
+        rw [ere]
+        have := dqRe_match c.word (strOK_dq hsh) (by decide) (by decide) items hitems hcp []
+        simpa [dqText, Pos.fin] using this
+      have hfm : firstMatch c.word c.rules ⟨[], dqText items⟩ = some (sr, ⟨(dqText items).reverse, []⟩) := by
+        rw [erules, firstMatch_skip pre _ hnone]
+        unfold firstMatch
+        rw [hsm]
+      have e : dqText items = 34 :: (dqBody 92 items ++ [34]) := rfl
+      unfold lex
+      rw [e] at hfm ⊢
+      simp only [List.length_cons, lexLoop, hig, Bool.false_eq_true, if_false, hfm]
+      simp only [List.length_nil, Nat.zero_lt_succ, if_true]
+      cases hn : (dqBody 92 items ++ [34]).length + 1 with
+      | zero => omega
+      | succ n =>
+        have ht : List.take ((dqBody 92 items).length + 1) (dqBody 92 items ++ [34]) = dqBody 92 items ++ [34] := by
+          apply List.take_of_length_le; simp
+        simp [lexLoop, ename, hign, between, ht]
+
+theorem classOKdq_live : classOKdq LexRe_sqlite.cfg = true ∧ classOKdq LexRe_mysql.cfg = true ∧
+    classOKdq LexRe_mindsdb.cfg = true := by decide +kernel
+
+/-- example: `"a\"b\\"` (value `a"b\`) is one token -/
+theorem C04_dqstring_example :
+    dqText [.ch 97, .esc 34, .ch 98, .esc 92] = [34, 97, 92, 34, 98, 92, 92, 34] ∧
+    lex LexRe_mindsdb.cfg [34, 97, 92, 34, 98, 92, 92, 34] = .ok [.tok "DQUOTE_STRING" false [34, 97, 92, 34, 98, 92, 92, 34]] := by
+  decide +kernel
+
+/-- `.` without DOTALL: every code point but the newline -/
+def dotAnySet : CSet := [(0, 9), (11, 1114111)]
+
+theorem dotAny_mem {c : Nat} (h1 : c ≠ 10) (h2 : c ≤ 1114111) : dotAnySet.mem c = true := by
+  unfold dotAnySet
+  by_cases hc : c ≤ 9
+  · have : Nat.ble c 9 = true := Nat.ble_eq_true_of_le hc
+    simp [CSet.mem, this]
+  · have a : Nat.blt c 11 = false := by
+      cases ha : Nat.blt c 11 with
+      | false => rfl
+      | true => rw [Nat.blt_eq] at ha; omega
+    have b : Nat.ble c 9 = false := by
+      cases hb : Nat.ble c 9 with
+      | false => rfl
+      | true => exact absurd (Nat.le_of_ble_eq_true hb) hc
+    have d : Nat.ble c 1114111 = true := Nat.ble_eq_true_of_le h2
+    simp [CSet.mem, a, b, d]
+
+/-- the `.` of the live `DQUOTE_STRING` rule is "everything but the newline" -/
+def dqAnyIsDot (c : Cfg) : Bool :=
+  match splitAt "DQUOTE_STRING" c.rules with
+  | none => false
+  | some (_, sr, _) => match dqShape sr.re with | some any => any == dotAnySet | none => false
+
+/-- items as `json.dumps` writes them: plain characters are no quote and no backslash, the character behind a backslash is
+no newline -/
+def dqPlainOK : DqItem → Prop
+  | .ch c => c ≠ 34 ∧ c ≠ 92 ∧ c ≤ 1114111
+  | .esc x => x ≠ 10 ∧ x ≤ 1114111
+
+/-- **`"` items `"` is one `DQUOTE_STRING` token** — every rule list with `classOKdq` and `dqAnyIsDot`, every item list -/
+theorem C04_dqstring_lexes_dot (c : Cfg) (hc : classOKdq c = true) (hd : dqAnyIsDot c = true) (items : List DqItem)
+    (hok : ∀ it ∈ items, dqPlainOK it) :
+    lex c (dqText items) = .ok [.tok "DQUOTE_STRING" false (dqText items)] := by
+  apply C04_dqstring_lexes c hc items
+  intro ANY ⟨pre, sr, post, hs, hss⟩
+  unfold dqAnyIsDot at hd
+  rw [hs] at hd
+  simp only [hss, beq_iff_eq] at hd
+  subst hd
+  constructor
+  · intro it hit
+    have := hok it hit
+    cases it with
+    | ch c => exact this
+    | esc x => exact dotAny_mem this.1 this.2
+  · intro c hcm
+    unfold dqBody at hcm
+    obtain ⟨it, hit, hc'⟩ := List.mem_flatMap.mp hcm
+    have := hok it hit
+    cases it with
+    | ch c0 =>
+      simp only [DqItem.text, List.mem_cons, List.not_mem_nil, or_false] at hc'
+      subst hc'; exact this.2.2
+    | esc x =>
+      simp only [DqItem.text, List.mem_cons, List.not_mem_nil, or_false] at hc'
+      rcases hc' with h0 | h0
+      · subst h0; decide
+      · subst h0; exact this.2
+
+theorem dqAnyIsDot_live : dqAnyIsDot LexRe_sqlite.cfg = true ∧ dqAnyIsDot LexRe_mysql.cfg = true ∧
+    dqAnyIsDot LexRe_mindsdb.cfg = true := by decide +kernel
+
+theorem C04_dqstring_lexes_mindsdb (items : List DqItem) (hok : ∀ it ∈ items, dqPlainOK it) :
+    lex LexRe_mindsdb.cfg (dqText items) = .ok [.tok "DQUOTE_STRING" false (dqText items)] :=
+  C04_dqstring_lexes_dot _ classOKdq_live.2.2 dqAnyIsDot_live.2.2 items hok
+
 end MindsVerif.Props.C04Lex
